@@ -356,3 +356,40 @@ Proof.
   assert (Hl : length l0 = 3%nat) by (unfold zlen in E; lia).
   destruct l0 as [|x [|y [|z [|w r]]]]; cbn in Hl; try lia. exists x, y, z. split; reflexivity.
 Qed.
+
+(* ---------- CCMP: decrypt after encrypt, for any block function with 16-byte output ---------- *)
+(* list form of the in-place shifted xor *)
+Lemma nth_ext_len (a b : list Z) : length a = length b -> (forall t, (t < length a)%nat -> nth t a 0 = nth t b 0) -> a = b.
+Proof.
+  revert b. induction a as [|x r IH]; intros [|y s] Hl H; cbn in Hl; try lia; [reflexivity|].
+  f_equal; [exact (H 0%nat ltac:(cbn; lia))|]. apply IH; [lia|]. intros t Ht. exact (H (S t) ltac:(cbn; lia)).
+Qed.
+
+Lemma xor_inplace_list n ks buf src dst :
+  (n <= length ks)%nat -> 0 <= dst <= src -> src + Z.of_nat n <= zlen buf ->
+  exists buf', xor_inplace n ks buf src dst = Ok buf' /\
+    buf' = firstn (Z.to_nat dst) buf ++ xorl (firstn n ks) (firstn n (skipn (Z.to_nat src) buf)) ++ skipn (Z.to_nat dst + n) buf.
+Proof.
+  intros Hk Hd Hs. destruct (xor_inplace_spec n ks buf src dst Hk Hd Hs) as (buf' & He & Hl & Hin & Hout).
+  exists buf'. split; [exact He|]. unfold zlen in *.
+  assert (Hx : length (xorl (firstn n ks) (firstn n (skipn (Z.to_nat src) buf))) = n).
+  { rewrite xorl_length, !firstn_length, skipn_length. lia. }
+  apply nth_ext_len.
+  - rewrite !app_length, Hx, firstn_length, skipn_length. lia.
+  - intros t Ht.
+    destruct (Nat.lt_ge_cases t (Z.to_nat dst)) as [H1|H1].
+    + rewrite app_nth1 by (rewrite firstn_length; lia). rewrite nth_firstn_lt by lia.
+      specialize (Hout (Z.of_nat t) ltac:(lia) ltac:(lia)). unfold nthz in Hout. rewrite Nat2Z.id in Hout. exact Hout.
+    + rewrite app_nth2 by (rewrite firstn_length; lia). rewrite firstn_length.
+      replace (Nat.min (Z.to_nat dst) (length buf)) with (Z.to_nat dst) by lia.
+      destruct (Nat.lt_ge_cases (t - Z.to_nat dst) n) as [H2|H2].
+      * rewrite app_nth1 by lia. rewrite nth_xorl by (rewrite firstn_length, ?skipn_length; lia).
+        rewrite !nth_firstn_lt by lia. rewrite nth_skipn_add.
+        specialize (Hin (t - Z.to_nat dst)%nat H2). unfold nthz in Hin.
+        replace (Z.to_nat (dst + Z.of_nat (t - Z.to_nat dst))) with t in Hin by lia.
+        replace (Z.to_nat (src + Z.of_nat (t - Z.to_nat dst))) with (Z.to_nat src + (t - Z.to_nat dst))%nat in Hin by lia.
+        exact Hin.
+      * rewrite app_nth2 by lia. rewrite Hx, nth_skipn_add.
+        replace (Z.to_nat dst + n + (t - Z.to_nat dst - n))%nat with t by lia.
+        specialize (Hout (Z.of_nat t) ltac:(lia) ltac:(lia)). unfold nthz in Hout. rewrite Nat2Z.id in Hout. exact Hout.
+Qed.
